@@ -15,8 +15,8 @@ import shutil
 import subprocess
 import sys
 
-ROOT = "/verif"
-REPO = "/repo"
+ROOT = os.environ.get("VERIF_ROOT", "/verif")
+REPO = os.environ.get("VERIF_REPO", "/repo")
 ENV = dict(os.environ, GOFLAGS="-mod=mod", GOPROXY="off", GOSUMDB="off", GOTOOLCHAIN="local")
 
 
@@ -99,7 +99,7 @@ def do_run(name, checks):
         sh("git checkout -- .", cwd=REPO)
         sh("git clean -fdq -- .", cwd=REPO)
         # the generated facts now describe the mutated tree: regenerate them from the reverted one
-        sh("bin/extract /repo lean/Verif/Generated work/facts.json", cwd=ROOT)
+        sh("bin/extract %s lean/Verif/Generated work/facts.json" % REPO, cwd=ROOT)
     meta["verified"] = result
     json.dump(meta, open(os.path.join(d, "meta.json"), "w"), indent=1)
     print(json.dumps(result, indent=1))
